@@ -255,6 +255,9 @@ def _block_of(stmt, root):
 
 
 def run(ctx):
+    from ..rules import extra as _X4
+    _X4.rule_group_stack_top(ctx)
+    _X4.rule_position_updates_maxtime(ctx)
     rule_F5a(ctx)
     rule_vocab(ctx)
     rule_escape(ctx)
